@@ -1232,8 +1232,12 @@ class Channel(ClosingContextManager):
         self.logger.log(level, "[chan " + self._name + "] " + msg, *args)
 
     def _event_pending(self):
-        self.event.clear()
-        self.event_ready = False
+        # not while _set_closed is running, and never after it: its
+        # event.set() is what keeps the request's wait from hanging
+        with self.lock:
+            self.event_ready = False
+            if not self.closed:
+                self.event.clear()
 
     def _wait_for_event(self):
         self.event.wait()
